@@ -53,7 +53,7 @@ class Mutator:
         cands = [v for v in POOL if not B.conforms(node, self.table, v, self.tn)]
         return self.d.choice(cands) if cands else None
 
-    def mutate(self, node, datum, depth=0):
+    def mutate(self, node, datum, depth=0, under_union=False):
         """Returns a datum with (at most) one mutation at a drawn position."""
         d, table = self.d, self.table
         n = M.deref(node, table)
@@ -72,7 +72,7 @@ class Mutator:
                 name, v = datum
                 for b in n["branches"]:
                     if M.branch_name(b, table) == name:
-                        return (name, self.mutate(b, v, depth + 1))
+                        return (name, self.mutate(b, v, depth + 1, True))
                 return datum
             if stop:
                 self.kind = "wrong-type"
@@ -80,7 +80,7 @@ class Mutator:
                 return w
             for b in n["branches"]:
                 if B.conforms(b, table, datum, self.tn):
-                    return self.mutate(b, datum, depth + 1)
+                    return self.mutate(b, datum, depth + 1, True)
             return datum
         if k == "record" and isinstance(datum, dict) and not stop and n["fields"]:
             present = [f for f in n["fields"] if f["name"] in datum]
@@ -91,7 +91,8 @@ class Mutator:
                     f = d.choice(req)
                     self.kind = "missing-field"
                     return {kk: vv for kk, vv in datum.items() if kk != f["name"]}
-            if w == 1:
+            if w == 1 and under_union:
+                # '-type' is a hint only where a union holds the record
                 self.kind = "wrong-type-hint"
                 out = dict(datum)
                 out["-type"] = d.choice(["Nope", n["name"] + "x"])
@@ -150,7 +151,7 @@ class C10(Check):
     )
     assumptions = ["float-typed leaves representable in the target width", "tuples of length != 2 at union positions are not generated"]
     required_labels = ["expected:True", "expected:False", "strict", "raise_errors", "no-tuple-notation", "rejected-by-writer", "accepted-roundtrip",
-                       "mut:wrong-type", "mut:out-of-range", "mut:bool-for-int", "mut:wrong-fixed-size", "mut:unknown-symbol", "mut:non-string-key", "mut:missing-field", "mut:wrong-hint", "strict-missing-nullable", "appending-writer", "logical-values", "logical-generated"]
+                       "mut:wrong-type", "mut:out-of-range", "mut:bool-for-int", "mut:wrong-fixed-size", "mut:unknown-symbol", "mut:non-string-key", "mut:missing-field", "mut:wrong-hint", "mut:wrong-type-hint", "strict-missing-nullable", "appending-writer", "logical-values", "logical-generated"]
     quick = (5000, 1)
     thorough = (10000, 16)
 
